@@ -223,10 +223,11 @@ class Sym:
 
 class Str:
     """abstract owned string (opt-in, `Evaluator.strings`): only its emptiness is tracked — True, False or None"""
-    __slots__ = ("empty",)
+    __slots__ = ("empty", "text")
 
-    def __init__(self, empty):
+    def __init__(self, empty, text=None):
         self.empty = empty
+        self.text = text        # for a string built by format!: the key of its Arguments (carries the literal template)
 
     def __repr__(self):
         return "str(%s)" % {True: "empty", False: "nonempty", None: "?"}[self.empty]
@@ -1623,7 +1624,7 @@ class Evaluator:
                 return Cond("true" if len(args[0]) == 1 else "false")
             if fn in ("alloc::fmt::format", "core::hint::must_use") and args:
                 # format!(..) of an error message: at least its literal text
-                return Str(False) if fn == "alloc::fmt::format" else args[0]
+                return Str(False, vkey(args[0])) if fn == "alloc::fmt::format" else args[0]
             if args and isinstance(args[0], Str) and (name in ("to_owned", "to_string", "clone", "into", "from", "deref", "as_str", "into_boxed_str", "as_ref", "borrow")):
                 return args[0]
         if fn.startswith("core::result::Result::<T, E>::") and name in ("map_err", "map", "and_then", "is_ok", "is_err") and args and isinstance(args[0], Agg) and args[0].var in ("Ok", "Err"):
